@@ -61,7 +61,7 @@ func runC01(c *Ctx, r *Report, tier string) {
 				ok, how = true, "the option's own value"
 			case strings.HasPrefix(recv, "call:reflect.Indirect(call:reflect.New("), strings.HasPrefix(recv, "fresh("):
 				ok, how = true, "fresh value"
-			case (fname == "(*Group).scanStruct" || fname == "(*Group).scanSubGroupHandler" || fname == "(*Command).scanSubcommandHandler$1") && (strings.HasPrefix(recv, "call:(reflect.Value).Field(P1") || recv == "P0" || recv == "P1" || strings.HasPrefix(recv, "phi{")):
+			case setupFn(c, fn) && (strings.HasPrefix(recv, "call:(reflect.Value).Field(P") || (len(recv) == 2 && recv[0] == 'P') || strings.HasPrefix(recv, "phi{")):
 				v := c.term(call.Call.Args[1])
 				ok = strings.HasPrefix(v, "call:reflect.New(") || strings.HasPrefix(v, "phi{") && strings.Contains(v, "call:reflect.New(")
 				how = "setup allocation of a nil struct pointer: stores reflect.New(…)"
@@ -377,4 +377,18 @@ func (c *Ctx) ruleConcatSplit(r *Report, rule string) {
 	if n == 0 {
 		r.Fail(rule, c.fname(ssc), "attached argument split", "", "no splitting return found")
 	}
+}
+
+// setupFn: fn is one of the declaration-scan functions or a new helper extracted from them.
+func setupFn(c *Ctx, fn *ssa.Function) bool {
+	owners := c.ownerNames(fn)
+	if len(owners) == 0 {
+		return false
+	}
+	for _, o := range owners {
+		if o != "(*Group).scanStruct" && o != "(*Group).scanSubGroupHandler" && o != "(*Command).scanSubcommandHandler$1" && o != "(*Command).scanSubcommandHandler" {
+			return false
+		}
+	}
+	return true
 }
